@@ -84,6 +84,12 @@ class HandleModel:
             return [('', ('bytes', args[0][1], sym(f'len({args[0][1]})')), [])]
         if (name.endswith('::as_bytes') or name.endswith('Deref>::deref')) and args and isinstance(args[0], tuple) and args[0][0] == 'bytes':
             return [('', args[0], [])]
+        if name.endswith('saturating_sub') and len(args) == 2 and isinstance(args[0], Aff) and isinstance(args[1], Aff):
+            a, b = args
+            d = a - b
+            if d.is_const():
+                return [('', Aff({}, max(d.c, 0)), [])]
+            return [('saturating_sub: not saturated', d, [(('cmp', 'Ge', a, b), True)]), ('saturating_sub: saturated to 0', Aff(), [(('cmp', 'Ge', a, b), False)])]
         if is_len_fn(name) and args:
             try:
                 return [('', ex.len_of(p, args[0]), [])]
@@ -136,6 +142,12 @@ def run_method(P, fn, self_fields, args, extra_summary=None, inline=None, facts=
 def check_path(p, start0, end0, buf, start_field=1, end_field=2):
     """returns list of (kind, message) problems of one completed path"""
     problems = []
+
+    def same(a, b):
+        d = aff(a) - aff(b)
+        if d == Aff():
+            return True
+        return entails(p.facts, d) and entails(p.facts, -d)
     if p.aborted:
         return [('unanalysable', p.aborted)]
     new_start = p.heap['SELF'][start_field]
@@ -165,24 +177,24 @@ def check_path(p, start0, end0, buf, start_field=1, end_field=2):
             while remaining and progress:
                 progress = False
                 for w in remaining:
-                    if (w[1] - pos) == Aff():
+                    if same(w[1], pos):
                         ln = w[2] - w[1]
                         if w[3][0] in ('bytes', 'arg'):
                             srcn = w[3][2] if w[3][0] == 'bytes' else sym(f'len({w[3][1]})')
-                            if not ((ln - srcn) == Aff()):
+                            if not same(ln, srcn):
                                 problems.append(('tiling', f'copy_from_slice at line {w[4]}: destination length {ln!r} != source length {srcn!r} (panics)'))
                         elif w[3][0] == 'lit':
-                            if not (ln == Aff({}, len(w[3][1]))):
+                            if not same(ln, Aff({}, len(w[3][1]))):
                                 problems.append(('tiling', f'write at line {w[4]}: destination length {ln!r} != literal length {len(w[3][1])}'))
                         pos = w[2]
                         remaining.remove(w)
                         progress = True
                         break
-            if remaining or not ((pos - (s + n)) == Aff()):
+            if remaining or not same(pos, s + n):
                 problems.append(('tiling', f'the {n!r} bytes allocated at line {line} are not exactly tiled by the following writes (covered up to {pos!r}, hole ends at {(s + n)!r})'))
-    if not (d_end == d_len):
+    if not same(d_end, d_len):
         problems.append(('window', f'Δend = {d_end!r} but the splices change the length by {d_len!r}: the handle no longer views exactly the new text'))
-    if not (d_start == Aff()):
+    if not same(d_start, Aff()):
         problems.append(('window', f'start moves by {d_start!r}'))
     for (atom, truth) in p.assume:
         if isinstance(atom, tuple) and atom and atom[0] == 'nonneg':
